@@ -2,6 +2,7 @@
 from ..prims import *
 from ..guards import side_tokens, find_guard
 from ..baselines import baseline
+from ..engine import place_local, field_steps, op_place
 
 EXPLANATION = (
     "Structural necessary conditions of C13 over every byte-level entry point found in the workspace (functions taking "
@@ -411,6 +412,58 @@ def run(ctx):
         rep.check(budget, "C13.R3", "recursion-budget:%s" % name.replace("warp_core::", ""), "recursion carries a compared depth/budget parameter",
                   "%s recurses over input bytes without a depth/budget bound: nesting depth is attacker-controlled (stack overflow)" % name, site=prog.fns[name].loc())
     rep.check(n_rec >= 2, "C13.R3", "recursion:sites", "%d input-consuming recursive components examined" % n_rec, "only %d input-consuming recursive components found" % n_rec, site="workspace")
+
+    # ---- R8 cumulative reservation in recursive decoders (sibling agreement; round 6, seed S91)
+    # A gate against the REMAINING input (R2) bounds one pre-allocation; in a recursive decoder every open nesting level
+    # holds its own pre-allocation at the same time, so the live total is depth x bound unless the allocations draw on one
+    # cumulative budget.  Where the repository already debits such a budget before an input-sized pre-allocation (a
+    # `&mut self` helper that writes a self field from a checked subtraction of that same field, e.g. Decoder::reserve_nodes),
+    # EVERY input-sized pre-allocation of that recursive function must be dominated by a debit: the array arm and the map
+    # arm are siblings.  Decoders with no cumulative budget at all are not judged (nothing to agree with).
+    rep.rule("C13.R8", "recursive decoders: every input-sized pre-allocation is dominated by the cumulative-budget debit its siblings perform")
+
+    def debit_helper(g):
+        if g is None or g.is_closure() or g.argc < 1 or not fn_param_tys(g)[0].startswith("&mut "):
+            return False
+        if not g.call_sites(r"::checked_sub$"):
+            return False
+        written = set()
+        read = set()
+        for bi, si, place, rv, line in g.assigns():
+            if place_local(place) == 1:
+                written |= {fs[2] for fs in field_steps(place)}
+            if rv["r"] == "use":
+                pl = op_place(rv["o"])
+                if pl and place_local(pl) == 1:
+                    read |= {fs[2] for fs in field_steps(pl)}
+        return bool(written & read)
+    n_cum = 0
+    for comp in sccs:
+        if not (len(comp) > 1 or comp[0] in prog.callees(comp[0])[0]):
+            continue
+        for fid in comp:
+            f = prog.fns[fid]
+            if f.is_closure() or not f.crate.startswith(("warp_core", "echo_", "warp_wasm")):
+                continue
+            debit_blocks = [bi for bi, t in f.calls() if not f.blocks[bi]["cl"] and debit_helper(prog.fns.get(f.callee_of(t) or ""))
+                            and len(t["args"]) >= 2 and reader_atoms(f, t["args"][1])]  # the debit is sized by a value read from the input (a constant per-value charge is not a reservation)
+            if not debit_blocks:
+                continue
+            allocs = []
+            for bi, t in f.calls():
+                if f.blocks[bi]["cl"] or not ALLOC.search(f.callee_of(t) or ""):
+                    continue
+                if reader_atoms(f, t["args"][-1]):
+                    allocs.append((bi, t))
+            for k, (bi, t) in enumerate(allocs, 1):
+                n_cum += 1
+                w = dominates(f, debit_blocks, [bi])
+                rep.check(w is None, "C13.R8", "cumulative-reservation:%s#%d" % (f.id.replace("warp_core::", ""), k),
+                          "pre-allocation is dominated by a cumulative-budget debit (%s)" % sorted({(f.callee_of(f.blocks[b]["t"]) or "").rsplit("::", 1)[-1] for b in debit_blocks}),
+                          "input-sized pre-allocation at line %s of recursive decoder %s is reachable without the cumulative-budget debit its sibling arms perform: every open nesting "
+                          "level can hold a full-size allocation at once (allocation amplification depth x bound)" % (t.get("line"), f.name), site=f.loc(t.get("line")))
+    rep.check(n_cum >= 2, "C13.R8", "cumulative-reservation:sites", "%d pre-allocations in budgeted recursive decoders examined" % n_cum,
+              "only %d pre-allocations in budgeted recursive decoders found (expected the Edict array and map arms)" % n_cum, site="workspace")
 
     # ---- R6 unchecked arithmetic on a declared length
     # A 64-bit length/count read from the input that is ADDED (or multiplied) with plain `+`/`*` before any upper bound
